@@ -4,6 +4,7 @@ import (
 	"fmt"
 	"strings"
 	"sync"
+	"sync/atomic"
 	"time"
 
 	"wv/fw"
@@ -30,8 +31,11 @@ func c12Run(c *fw.Ctx, idx int, sc c12Scenario) {
 	defer cl.Close()
 	auth := kit.PredictableAuth()
 	nodes := []*kit.Node{}
+	// in a third of the scenarios the audit sink (a side channel) fails from the second connection on
+	var auditDown atomic.Bool
+	auditFails := idx%3 == 1
 	for i := 1; i <= sc.nNodes; i++ {
-		n, err := cl.AddNode(kit.NodeOpts{ID: uint64(i), Auth: auth})
+		n, err := cl.AddNode(kit.NodeOpts{ID: uint64(i), Auth: auth, AuditFail: &auditDown})
 		if err != nil {
 			c.Inconclusive("cannot start node: " + err.Error())
 			return
@@ -56,6 +60,9 @@ func c12Run(c *fw.Ctx, idx int, sc c12Scenario) {
 		clientID = "" // the zero-length client identifier is legal with a clean session; it is an identifier like any other
 	}
 	desc := fmt.Sprintf("connections of %q on nodes %v, displaced sessions do %v (%v)", clientID, addOne(sc.places), sc.oldEvent, sc.when)
+	if auditFails {
+		desc += ", audit sink failing from the second connection on"
+	}
 	wit := func(extra map[string]interface{}) map[string]interface{} {
 		out := map[string]interface{}{"scenario": idx, "nodes": sc.nNodes, "places": addOne(sc.places), "old_events": sc.oldEvent, "when": sc.when}
 		for k, v := range extra {
@@ -90,6 +97,10 @@ func c12Run(c *fw.Ctx, idx int, sc c12Scenario) {
 		}
 		// precondition of the property: the accepting node has learned of the earlier session
 		cl.Quiesce()
+		if auditFails && k > 0 {
+			auditDown.Store(true)
+			c.Observe("takeovers_with_failing_audit_sink", 1)
+		}
 		var cc *kit.Client
 		var code int
 		var cerr error
@@ -381,7 +392,7 @@ func addOne(a []int) []int {
 }
 
 func runC12(c *fw.Ctx) {
-	c.Rule = "pairs and chains of 3 connections sharing a client identifier on 1-3 nodes (same node / different nodes), gossip delivered by an explicit pump; each displaced session performs one event (PINGREQ, SUBSCRIBE, DISCONNECT, close, nothing) placed before the takeover's gossip, after it, BETWEEN 'old record deleted' and 'new record created' in the accepting node's setup (hook H2, the accepting goroutine is held there), between the accepting node's lookup of the earlier record and its removal (the earlier session's own teardown completes in between), or with its own teardown held between lookup and delete (hook H2) while the gossip is delivered. In 3-node scenarios that leave node 3 unused, that node receives the whole scenario's gossip at the end in reverse order. Oracle: every CONNECT is accepted; after quiescence every node resolves the identifier to the newest session, lists exactly its subscription and none of the displaced ones; the displaced session's next PINGREQ gets no PINGRESP and its connection is closed; a publish to the newest session's filter reaches it and not the others. Also: the newer session leaves (DISCONNECT / connection loss) before the displaced one's keep-alive exchange, which must still end the displaced one. Quick: the full grid of pairs (placement x event x timing) and seeded chains; thorough: more chains. distinct = scenario parameters; non-trivial = all"
+	c.Rule = "pairs and chains of 3 connections sharing a client identifier on 1-3 nodes (same node / different nodes), gossip delivered by an explicit pump; each displaced session performs one event (PINGREQ, SUBSCRIBE, DISCONNECT, close, nothing) placed before the takeover's gossip, after it, BETWEEN 'old record deleted' and 'new record created' in the accepting node's setup (hook H2, the accepting goroutine is held there), between the accepting node's lookup of the earlier record and its removal (the earlier session's own teardown completes in between), or with its own teardown held between lookup and delete (hook H2) while the gossip is delivered. In a third of the scenarios the nodes' audit sink fails from the second connection on. In 3-node scenarios that leave node 3 unused, that node receives the whole scenario's gossip at the end in reverse order. Oracle: every CONNECT is accepted; after quiescence every node resolves the identifier to the newest session, lists exactly its subscription and none of the displaced ones; the displaced session's next PINGREQ gets no PINGRESP and its connection is closed; a publish to the newest session's filter reaches it and not the others. Also: the newer session leaves (DISCONNECT / connection loss) before the displaced one's keep-alive exchange, which must still end the displaced one. Quick: the full grid of pairs (placement x event x timing) and seeded chains; thorough: more chains. distinct = scenario parameters; non-trivial = all"
 	c.Assume("the accepting node has learned of the earlier session (gossip barrier before each CONNECT), as the property requires")
 	events := []string{"ping", "subscribe", "disconnect", "close", "nothing"}
 	whens := []string{"before-gossip", "after-gossip", "at-setup-point", "at-setup-lookup-point", "at-shutdown-point"}
